@@ -160,6 +160,9 @@ impl BytePipe {
     }
 
     fn with_state(&self, f: impl FnOnce(&mut PipeState)) {
+        if !crate::clock::active() {
+            return;
+        }
         if std::thread::panicking() {
             if let Ok(mut st) = self.st.try_lock() {
                 f(&mut st);
@@ -399,7 +402,7 @@ impl Drop for TcpListener {
             }
         });
         // connections that were never accepted are reset
-        if !std::thread::panicking() {
+        if !std::thread::panicking() && crate::clock::active() {
             let pending: Vec<TcpStream> = self.inner.backlog.lock().unwrap().drain(..).collect();
             for s in pending {
                 s.reset();
